@@ -123,6 +123,26 @@ def run_pair(case):
                 if c.conn is None and c.svc.started:
                     W.do(["open", ci])
             W.settle()
+        # close() again after everything has settled: the Deferred API must report the same verdict once more
+        # ('happy' or the same documented WormholeError), the delegated API must stay silent
+        DOC = ("LonelyError", "WrongPasswordError", "ServerError", "WelcomeError", "ServerConnectionError")
+        first = [(n, v) for n, v in b.events if n in ("closed", "closed!")]
+        try:
+            b.w.close().addBoth(b._fired, "close2")
+        except Exception as e:
+            viol.append(("second-close-raises:" + type(e).__name__, f"Deferred-mode close() after closed raised {e!r}"))
+        W.do(["api", 0, "close"])
+        W.settle()
+        second = [(n, v) for n, v in b.events if n in ("close2", "close2!")]
+        if first:
+            if not second:
+                viol.append(("second-close-hangs", "a second close() after closed never fired"))
+            elif (second[0][0].endswith("!"), second[0][1]) != (first[0][0].endswith("!"), first[0][1]):
+                viol.append(("second-close-verdict:" + str(second[0][1]),
+                             f"first close() reported {first[0]}, a second close() reported {second[0]}"))
+            for n, v in first + second:
+                if (n.endswith("!") and v not in DOC) or (not n.endswith("!") and v != "happy"):
+                    viol.append(("verdict:" + str(v), f"close() reported {n}={v}: neither 'happy' nor a documented WormholeError"))
         # after closed: every outstanding and future get_* fails
         n0 = len(b.events)
         for name, meth in [("welcome", b.w.get_welcome), ("code", b.w.get_code), ("key", b.w.get_unverified_key),
@@ -143,7 +163,7 @@ def run_pair(case):
         # with an order-preserving server the clause holds across reconnects too: un-echoed messages
         # are re-submitted in submission order, and the server replays a mailbox in arrival order
         viol += check_events(a.events, "delegated", fifo)
-        viol += check_events([(n, v) for n, v in b.events[:n0] if not n.startswith("late-")], "deferred", fifo)
+        viol += check_events([(n, v) for n, v in b.events[:n0] if not n.startswith(("late-", "close2"))], "deferred", fifo)
         for c in (a, b):
             for ent in c.internal:
                 viol.append(("internal:" + ent[0], f"internal failure {ent}"))
